@@ -256,10 +256,31 @@ Proof.
   apply H. reflexivity.
 Qed.
 
-Lemma print_dirs_agok l : forall v,
-  agok2 (fun dsv ds => ds = map dconv dsv) (print_dirs_hook cf x_dirs w1 l) (print_dirs cf w2 l v).
+Lemma apply_directives_noesc ds : forall s s' e, apply_directives ds s false = Ok (s', e) -> e = false.
 Proof.
-  induction l as [|d r IH]; intros v; cbn [print_dirs_hook print_dirs].
+  induction ds as [|[name args] rest IH]; intros s s' e H; cbn [apply_directives] in H.
+  - injection H as _ <-. reflexivity.
+  - destruct (lookup_directive name) as [[arglens [cancel [nilapply fn]]]|]; [|discriminate].
+    destruct (negb _); [discriminate|]. destruct nilapply; [discriminate|].
+    destruct (apply_fn fn args s) as [s1| | | | |]; try discriminate. cbn [bind andb] in H. exact (IH _ _ _ H).
+Qed.
+
+(* the result so far: the hooked loop carries a VALUE (or nil), [Interp.print_dirs] a string value with the same image *)
+Definition same_image (ov : option value) (v : value) : Prop :=
+  exists v', ov = Some v' /\ forall s, value_string v = Ok s -> value_string v' = Ok s.
+
+Lemma agok2_lift_both {A B C D} (R : A -> B -> Prop) (o1 : outcome C) (o2 : outcome D) (f1 : C -> M A) (f2 : D -> M B) :
+  (forall y, o2 = Ok y -> exists x, o1 = Ok x /\ agok2 R (f1 x) (f2 y)) ->
+  agok2 R (x <-- lift o1 ;;; f1 x) (y <-- lift o2 ;;; f2 y).
+Proof.
+  intros H st. rewrite (lift_bind o2). destruct o2 as [y| | | | |]; try (left; cbn [fst]; intros z; discriminate).
+  destruct (H y eq_refl) as (x & -> & Hf). rewrite (lift_bind (Ok x)). apply Hf.
+Qed.
+
+Lemma print_dirs_agok l : forall ov v, same_image ov v ->
+  agok2 (fun dsv ds => ds = map dconv dsv) (print_dirs_hook cf x_dirs w1 l ov) (print_dirs cf w2 l v).
+Proof.
+  induction l as [|d r IH]; intros ov v Him; cbn [print_dirs_hook print_dirs].
   - intros st. right. do 2 eexists. split; [reflexivity|]. split; [reflexivity|].
     rewrite map_map. reflexivity.
   - destruct d; try apply agok2_fail_r.
@@ -267,9 +288,20 @@ Proof.
     destruct (x_dirs_arities _ _ _ Hl) as (de & Hde & Har). rewrite Hde, Har.
     destruct (negb (check_num_args arglens (length args))); [apply agok2_fail_r|].
     apply (agok2_bind2 eq); [apply agok_to_2; apply agok_eval_list; exact Hw|]. intros vs ? <-.
-    apply agok2_lift_r. intros s _. apply agok2_lift_r. intros ws _.
-    apply (agok2_bind2 (fun dsv ds => ds = map dconv dsv)); [apply IH|]. intros dsv ds ->.
-    intros st. right. do 2 eexists. split; [reflexivity|]. split; [reflexivity|]. reflexivity.
+    apply agok2_lift_r. intros s Hs.
+    destruct Him as (v' & -> & Hv'). specialize (Hv' s Hs).
+    apply agok2_lift_both. intros ws Hws.
+    unfold print_writes in Hws.
+    destruct (apply_directives [(name, map darg_of vs)] s (negb (2 =? 2))) as [[s' esc']| | | | |] eqn:Ha; try discriminate.
+    change (negb (2 =? 2)) with false in Ha.
+    pose proof (apply_directives_noesc _ _ _ _ Ha) as ->.
+    cbn [bind] in Hws. injection Hws as <-.
+    destruct (apply_dirs_x_agrees [(name, vs)] v' s false s' false Hv' Ha) as (v'' & E1 & E2).
+    exists (Some v'', false). split; [exact E1|]. cbn [fst].
+    apply (agok2_bind2 (fun dsv ds => ds = map dconv dsv)).
+    + apply IH. exists v''. split; [reflexivity|]. intros s0 Hs0.
+      cbn [concat_b] in Hs0. rewrite app_nil_r in Hs0. rewrite value_string_str in Hs0. injection Hs0 as <-. exact E2.
+    + intros dsv ds ->. intros st. right. do 2 eexists. split; [reflexivity|]. split; [reflexivity|]. reflexivity.
 Qed.
 
 Lemma print_tail_agok v dsv :
@@ -291,12 +323,13 @@ Proof.
   cbn [walk_body_hook]. unfold walk_body. cbn [walk_node pos_of].
   apply agok_bind; [apply agok_refl|]. intros _.
   unfold print_hook. apply agok_bind; [apply Hw|]. intros v.
-  assert (Hrest : agok (ds <-- print_dirs_hook cf x_dirs w1 dirs ;;;
+  assert (Hrest : agok (ds <-- print_dirs_hook cf x_dirs w1 dirs (Some v) ;;;
                         st <-- get ;;; ws <-- lift (print_writes_hook x_dirs (mode st) ds v) ;;; _ <-- write_all ws ;;; ret VUndef)
                        (ds <-- print_dirs cf w2 dirs v ;;;
                         s <-- lift (value_string v) ;;; st <-- get ;;; ws <-- lift (print_writes (mode st) ds s) ;;;
                         _ <-- write_all ws ;;; ret VUndef)).
-  { apply (agok2_bind (fun dsv ds => ds = map dconv dsv)); [apply print_dirs_agok|].
+  { apply (agok2_bind (fun dsv ds => ds = map dconv dsv)).
+    { apply print_dirs_agok. exists v. split; [reflexivity|]. intros s Hs. exact Hs. }
     intros dsv ds ->. apply print_tail_agok. }
   destruct v; try exact Hrest. apply agok_refl.
 Qed.
